@@ -323,6 +323,31 @@ fn add_assign_binary(dest: &mut [u64], src: &[u64])
         lemma_fundamental_div_mod_converse(p, nrw, i2, j2 / 64);
     }
 }""")
+    u.fn('src/matrix.rs', 'query_non_zero_columns_into', impl=T, ret='r',
+         requires=['dm_wf(*self)', '(row as int) < self.height', 'start_col <= self.width'],
+         ensures=[# the strictly increasing list of the columns >= start_col whose cell is set
+                  'forall |k: int| 0 <= k < final(out)@.len() ==> start_col as int <= (#[trigger] final(out)@[k]) as int && (final(out)@[k] as int) < self.width && cell(*self, row as int, final(out)@[k] as int)',
+                  'forall |k: int, l: int| 0 <= k < l < final(out)@.len() ==> final(out)@[k] < final(out)@[l]',
+                  'forall |c: int| start_col as int <= c < self.width && cell(*self, row as int, c) ==> exists |k: int| 0 <= k < final(out)@.len() && #[trigger] final(out)@[k] as int == c'],
+         loops={0: {'spec': ('invariant dm_wf(*self), (row as int) < self.height, start_col <= col, col <= self.width,'
+                             ' forall |k: int| 0 <= k < out@.len() ==> start_col as int <= (#[trigger] out@[k]) as int && (out@[k] as int) < col as int && cell(*self, row as int, out@[k] as int),'
+                             ' forall |k: int, l: int| 0 <= k < l < out@.len() ==> out@[k] < out@[l],'
+                             ' forall |c: int| start_col as int <= c < col as int && cell(*self, row as int, c) ==> exists |k: int| 0 <= k < out@.len() && #[trigger] out@[k] as int == c,'),
+                    'body_bottom': ('proof { assert forall |c: int| start_col as int <= c < col as int + 1 && cell(*self, row as int, c) implies exists |k: int| 0 <= k < out@.len() && #[trigger] out@[k] as int == c by {'
+                                    ' if c == col as int { assert(out@[out@.len() - 1] as int == c); } else { let k0 = choose |k: int| 0 <= k < verif_prev.len() && #[trigger] verif_prev[k] as int == c; assert(out@[k0] == verif_prev[k0]); } } }'),
+                    'body_top': 'let ghost verif_prev = out@;'}})
+    u.fn('src/matrix.rs', 'get_ones_in_column_into', impl=T, ret='r',
+         requires=['dm_wf(*self)', '(col as int) < self.width', 'start_row <= end_row', 'end_row <= self.height', 'self.height <= 0xff_ffff'],
+         ensures=['forall |k: int| 0 <= k < final(out)@.len() ==> start_row as int <= (#[trigger] final(out)@[k]) as int && (final(out)@[k] as int) < end_row as int && cell(*self, final(out)@[k] as int, col as int)',
+                  'forall |k: int, l: int| 0 <= k < l < final(out)@.len() ==> final(out)@[k] < final(out)@[l]',
+                  'forall |r: int| start_row as int <= r < end_row as int && cell(*self, r, col as int) ==> exists |k: int| 0 <= k < final(out)@.len() && #[trigger] final(out)@[k] as int == r'],
+         loops={0: {'spec': ('invariant dm_wf(*self), (col as int) < self.width, start_row <= row, row <= end_row, end_row <= self.height, self.height <= 0xff_ffff,'
+                             ' forall |k: int| 0 <= k < out@.len() ==> start_row as int <= (#[trigger] out@[k]) as int && (out@[k] as int) < row as int && cell(*self, out@[k] as int, col as int),'
+                             ' forall |k: int, l: int| 0 <= k < l < out@.len() ==> out@[k] < out@[l],'
+                             ' forall |r: int| start_row as int <= r < row as int && cell(*self, r, col as int) ==> exists |k: int| 0 <= k < out@.len() && #[trigger] out@[k] as int == r,'),
+                    'body_top': 'let ghost verif_prev = out@;',
+                    'body_bottom': ('proof { assert forall |r: int| start_row as int <= r < row as int + 1 && cell(*self, r, col as int) implies exists |k: int| 0 <= k < out@.len() && #[trigger] out@[k] as int == r by {'
+                                    ' if r == row as int { assert(out@[out@.len() - 1] as int == r); } else { let k0 = choose |k: int| 0 <= k < verif_prev.len() && #[trigger] verif_prev[k] as int == r; assert(out@[k0] == verif_prev[k0]); } } }')}})
     u.raw('}')
     u.raw('} // verus!')
     return u
